@@ -329,6 +329,15 @@ def wide_alphabet(name, Pm):
               ('m', 'del_derivs', lambda x: x.delete_derivs()),
               ('m', 'set_units', lambda x: x.set_units(Pm.Units.KM)),
               ('m', 'iadd_self', lambda x: x.__iadd__(x.copy()))]
+        # object operands whose mask adds a masked element (seeded change C03-A: __isub__ kept the cached antimask)
+        def partly_masked(x):
+            m = np.zeros(x.shape, bool)
+            if x.shape:
+                m.reshape(-1)[-1] = True
+            return Pm.Scalar(np.ones(x.shape) * 2., m if x.shape else False)
+        m += [('m', 'iadd_obj', lambda x: x.__iadd__(partly_masked(x))), ('m', 'isub_obj', lambda x: x.__isub__(partly_masked(x))),
+              ('m', 'imul_obj', lambda x: x.__imul__(partly_masked(x))), ('m', 'idiv_obj', lambda x: x.__itruediv__(partly_masked(x))),
+              ('m', 'ifloordiv_obj', lambda x: x.__ifloordiv__(partly_masked(x))), ('m', 'imod_obj', lambda x: x.__imod__(partly_masked(x)))]
     m += [('m', 'readonly', lambda x: x.as_readonly())]
     return q + m
 
